@@ -316,6 +316,12 @@ pub fn call_monitors(op: Op, before: &[u8], after: &[u8], out: &CallOut) -> Vec<
             format!("Monotone:{}:pointer-moved-backwards:{}", op.api(), cls),
             format!("{} returned {} and moved (ci {}, ch {}) to (ci {}, ch {}): {}", op.api(), out.k, c0, h0, c1, h1, desc()),
         ));
+    }
+    if out.k != "ok" {
+        // ValidationFailed: a rejection after processing; only "not backwards" is required (S3)
+        return pvs;
+    }
+    if h1 < h0 || c1 < c0 {
     } else if h1 > h0 + 1 || c1 > c0 + 1 || (c1 == c0 + 1 && h1 != h0 + 1) {
         pvs.push(pv(
             format!("Monotone:{}:pointer-jump:{}", op.api(), cls),
